@@ -658,6 +658,21 @@ func (x *scen) variant(rh int64, kind string, R *vh.Rng) *types.Block {
 	case "lc-extra":
 		b.LastCommit.Precommits = append(b.LastCommit.Precommits, nil)
 		rehash()
+	case "lc-nil-badsig", "lc-other-badsig": // a precommit that does not count (nil / another block) and does not verify
+		if js := nonNil(); len(js) > 0 && rh >= 2 {
+			j := js[R.Intn(len(js))]
+			v := b.LastCommit.Precommits[j]
+			id := types.BlockID{}
+			if kind == "lc-other-badsig" {
+				id = idOf(x.forge(rh - 1))
+			}
+			nv := x.sign(j, v.Height, v.Round, v.Type, id, j)
+			sig := nv.Signature.(crypto.SignatureEd25519)
+			sig[11] ^= 0x20
+			nv.Signature = sig
+			b.LastCommit.Precommits[j] = nv
+			rehash()
+		}
 	case "extra": // same header hash (Header.Extra is not hashed), another part set
 		b = x.extraOf(rh)
 	case "lc-relabel": // child of the "extra" variant of rh-1: the first precommit genuine, the others name the
@@ -978,7 +993,7 @@ func (x *scen) goOn() {
 }
 
 var kinds = []string{"txs", "txs-rehash", "time", "apphash", "valhash", "proposer", "lastblockid", "height+", "height-", "forge", "forge-child",
-	"lc-minority", "lc-nil", "lc-allnil", "lc-idx", "lc-addr", "lc-badsig", "lc-swap", "lc-round", "lc-other", "lc-extra", "nil-data", "nil-header", "extra", "lc-relabel"}
+	"lc-minority", "lc-nil", "lc-allnil", "lc-idx", "lc-addr", "lc-badsig", "lc-swap", "lc-round", "lc-other", "lc-extra", "nil-data", "nil-header", "extra", "lc-relabel", "lc-nil-badsig", "lc-other-badsig"}
 
 func main() {
 	r := vh.Start()
